@@ -146,7 +146,7 @@ impl Prop for C07 {
             v[60] = pol;
             seeds.push(v);
         }
-        let runs: u64 = std::env::var("VERIF_FUZZ_RUNS").ok().and_then(|s| s.parse().ok()).unwrap_or(1_500_000);
+        let runs: u64 = std::env::var("VERIF_FUZZ_RUNS").ok().and_then(|s| s.parse().ok()).unwrap_or(400_000);
         let out = crate::fuzzrun::run("c07_nopanic", seed, runs, 192, &seeds, None);
         let mut ev = out.evidence;
         let mut confirmed = None;
